@@ -198,7 +198,9 @@ type storage struct {
 	last *types.CertificateHeader
 }
 
-func (s *storage) GetLastSentCertificateHeader() (*types.CertificateHeader, error) { return s.last, nil }
+func (s *storage) GetLastSentCertificateHeader() (*types.CertificateHeader, error) {
+	return s.last, nil
+}
 
 func Run(args []string) error {
 	fs := flag.NewFlagSet("certcut", flag.ContinueOnError)
@@ -247,6 +249,8 @@ func one(w *tr.W, logger *log.Logger, i int, c kase) (err error) {
 		return rng(w, i, c)
 	case "gap":
 		return gap(w, i, c)
+	case "vgap":
+		return vgap(w, logger, i, c)
 	}
 	return fmt.Errorf("unknown kind %q", c.K)
 }
@@ -349,6 +353,29 @@ func rng(w *tr.W, i int, c kase) error {
 	res, rerr := p.Range(f, t)
 	putResult(m, res, rerr)
 	w.Emit(m)
+	return nil
+}
+
+// vgap: the real baseFlow.VerifyBlockRangeGaps for a last certificate A (Mode 1 settled / pending, 2 in error) and a new
+// range B; what it asks the syncer for is the gap it believes in.
+func vgap(w *tr.W, logger *log.Logger, i int, c kase) error {
+	var v [4]uint64
+	for k, s := range []sym{c.A[0], c.A[1], c.B[0], c.B[1]} {
+		x, err := s.val()
+		if err != nil {
+			return err
+		}
+		v[k] = x
+	}
+	last := &types.CertificateHeader{Height: 3, FromBlock: v[0], ToBlock: v[1], Status: agglayertypes.Settled}
+	if c.Mode == 2 {
+		last.Status = agglayertypes.InError
+	}
+	q := &querier{}
+	bf := flows.NewBaseFlow(logger, q, &storage{}, nil, nil, flows.NewBaseFlowConfig(0, 0, false))
+	err := bf.VerifyBlockRangeGaps(context.Background(), last, v[2], v[3])
+	w.Emit(tr.M{"ev": "vgap", "i": i, "a": c.A, "b": c.B, "mode": c.Mode, "asked": q.asked,
+		"q": [2]sym{toSym(q.qFrom), toSym(q.qTo)}, "err": err != nil})
 	return nil
 }
 
